@@ -972,7 +972,9 @@ class Driver:
             if doc is None:
                 return None
         before = self.snapshot()
-        if parse_fails or corrupt:
+        if parse_fails or corrupt or op.get("unpredicted"):
+            # (unpredicted: an include file of the document supplies values - what the load makes of them is not judged,
+            # only that a failure leaves the configuration as it was)
             label, pred = (False if parse_fails else None), Prediction(None, None)
             pred.unpredicted = True
         else:
